@@ -65,6 +65,13 @@ def variant_atoms(mid, variant):
             a.resname = 'ALA'
     elif variant == 'ASPnoCG':
         out = [a for a in out if a.name in gen.BACKBONE + ('CB', 'OXT')]
+    elif variant == 'HETX':      # a modified residue written as HETATM under another name, with one atom the standard residue lacks
+        for a in out:
+            a.rec, a.resname = 'HETATM', 'ASX'
+        extra = [a for a in out if a.name == 'OD2'][0].clone()
+        extra.name4 = ' OD3'
+        extra.x, extra.y, extra.z = extra.x + 900, extra.y + 700, extra.z - 600
+        out.append(extra)
     elif variant == 'ASPs':
         for a in out:
             if a.name in ('CG', 'OD1', 'OD2'):
@@ -410,6 +417,14 @@ def layouts(tier):
                 if all(x == 'absent' for x in vs):
                     continue
                 cases.append(dict(kind='model', layout=list(zip(nums, vs)), twin=twin))
+    # one alternate is a modified residue given as HETATM (SER/SEP, CYS/CSO, MET/MSE ...)
+    for tags in (('A', 'B'), ('A', 'B', 'C')):
+        for vs in itertools.product(('ASP', 'HETX', 'ALA'), repeat=len(tags)):
+            if 'HETX' in vs and len(set(vs)) > 1:
+                cases.append(dict(kind='alt', layout=list(zip(tags, vs))))
+    for vs in itertools.product(('ASP', 'HETX', 'absent'), repeat=2):
+        if 'HETX' in vs and len(set(vs)) > 1:
+            cases.append(dict(kind='model', layout=list(zip((1, 2), vs))))
     # models whose last chain is closed neither by TER nor by OXT
     for nums in ((1, 2), (1, 2, 3)):
         for vs in itertools.product(('ASP', 'ALA', 'ASPnoCG'), repeat=len(nums)):
